@@ -34,15 +34,22 @@ EXTRA_STEPS = [("construct", "euler_groups_from_shared_sequence", "-"), ("constr
                ("derive", "mr_ref_traj", "-"),
                # life-cycle preludes: many calls with ever new numeric inputs (bounded caches fill and evict, counters run), objects copied,
                # pickled, dropped and collected, library modules re-imported, calls from another thread
-               ("lifecycle", "many_calls", "-"), ("lifecycle", "copy_drop_collect", "-"), ("lifecycle", "reload", "-"), ("lifecycle", "other_thread", "-")]
+               ("lifecycle", "many_calls", "-"), ("lifecycle", "copy_drop_collect", "-"), ("lifecycle", "reload", "-"), ("lifecycle", "other_thread", "-"),
+               ("lifecycle", "dropped_product_groups", "-")]
+# histories of the shape  A  B^n  A : the probe itself runs first, then many other calls (or object births and deaths), then the probe that
+# is judged - a bounded cache that hands a recycled slot to an evicted key, or a table keyed by the address of a dead object, only shows
+# when something seen before is asked for again
+REVISIT = [[("lifecycle", "probe_first", "-"), ("lifecycle", "many_calls", "-")], [("lifecycle", "probe_first", "-"), ("lifecycle", "dropped_product_groups", "-")],
+           [("lifecycle", "probe_first", "-"), ("lifecycle", "copy_drop_collect", "-")]]
+_CURRENT_PROBE = [None]
 
 
 def menu(tier):
     """list of preludes; a prelude is a list of steps (group, op, kind)"""
     steps = [(g, o, k) for g in GROUPS for o in OPS for k in KINDS]
     if tier != "thorough":
-        return _menu_quick() + [[s] for s in EXTRA_STEPS]
-    return _menu_thorough(steps) + [[s] for s in EXTRA_STEPS] + [[a, b] for a in EXTRA_STEPS for b in EXTRA_STEPS if a != b]
+        return _menu_quick() + [[s] for s in EXTRA_STEPS] + [list(r) for r in REVISIT]
+    return _menu_thorough(steps) + [[s] for s in EXTRA_STEPS] + [list(r) for r in REVISIT] + [[a, b] for a in EXTRA_STEPS for b in EXTRA_STEPS if a != b]
 
 
 def _menu_thorough(steps):
@@ -193,7 +200,25 @@ def do_lifecycle(step):
     with contextlib.redirect_stdout(io.StringIO()):
         try:
             if name == "many_calls":
-                some_calls(300)
+                some_calls(400)
+            elif name == "probe_first":
+                PROBES[_CURRENT_PROBE[0]]()
+            elif name == "dropped_product_groups":
+                # product groups of several layouts are born, used and die one after the other (a helper that returns plain numbers)
+                facs = [lie.R3, lie.SO3Quat, lie.SO3Mrp, lie.SE2, lie.SO2, lie.R2, lie.SE3Quat]
+                for rnd in range(3):
+                    for A in facs:
+                        for B_ in facs:
+                            try:
+                                Gp = A * B_
+                                e = Gp.identity()
+                                Xp = Gp.algebra.elem(ca.DM(np.linspace(-0.3, 0.4, Gp.algebra.n_param))).exp(Gp)
+                                (Xp * e).log()
+                                Xp.inverse().to_Matrix()
+                            except Exception:
+                                pass
+                            Gp = e = Xp = None
+                            gc.collect()
             elif name == "copy_drop_collect":
                 keep = []
                 for G in (lie.SO3Quat, lie.SE3Quat, lie.SE23Mrp, lie.SO3EulerB321):
@@ -378,6 +403,25 @@ def probe_lie():
                                         out[key + "to_" + hn] = "raises %s" % type(ex).__name__
                 except Exception as ex:
                     out[key + "exp"] = "raises %s" % type(ex).__name__
+        # direct products built on the spot (as a caller does with `A * B`), several layouts of equal size
+        lie = _lie()
+        for tag, mk in (("SO3Mrp*R3", lambda: lie.SO3Mrp * lie.R3), ("R3*SO3Mrp", lambda: lie.R3 * lie.SO3Mrp), ("SO3Quat*R3", lambda: lie.SO3Quat * lie.R3), ("R3*SO3Quat", lambda: lie.R3 * lie.SO3Quat),
+                        ("SE2*R3", lambda: lie.SE2 * lie.R3), ("R3*SE2", lambda: lie.R3 * lie.SE2)):
+            key = "product_group:%s/" % tag
+            try:
+                Gp = mk()
+                x = np.linspace(-0.4, 0.5, Gp.algebra.n_param)
+                Xp = Gp.algebra.elem(ca.DM(x)).exp(Gp)
+                out[key + "exp"] = _flat(Xp.param)
+                for nm, fn in (("identity", lambda: Gp.identity().param), ("log", lambda: Xp.log().param), ("product", lambda: (Xp * Xp).param), ("inverse", lambda: Xp.inverse().param),
+                               ("to_Matrix", lambda: Xp.to_Matrix()), ("times_identity", lambda: (Xp * Gp.identity()).param)):
+                    try:
+                        out[key + nm] = _flat(fn())
+                    except Exception as ex:
+                        out[key + nm] = "raises %s" % type(ex).__name__
+            except Exception as ex:
+                out[key + "exp"] = "raises %s" % type(ex).__name__
+            Gp = Xp = None
     return out
 
 
@@ -476,6 +520,7 @@ def child_main(probe):
             import cyecca.models.rdd2  # noqa: F401
             import cyecca.models.rdd2_loglinear  # noqa: F401
     preludes = json.loads(sys.stdin.read())
+    _CURRENT_PROBE[0] = probe
     real_out = os.fdopen(os.dup(1), "w")
     for pre in preludes:
         r, w = os.pipe()
